@@ -861,6 +861,8 @@ enum Scanned {
 struct Anchor {
     start: usize,
     end: usize,
+    /// Set for the first step of a consequence, which starts on the line of its `=>`.
+    after_arrow: bool,
 }
 
 /// Comments and blank lines recovered from the source. `leading` and `trailing` are keyed by the
@@ -891,7 +893,7 @@ impl Trivia {
         // The node a leading item precedes: the nearest anchor starting after it.
         let following = |offset: usize| {
             let index = anchors.partition_point(|anchor| anchor.start <= offset);
-            anchors.get(index).map(|anchor| anchor.start)
+            anchors.get(index)
         };
         // The node a trailing comment follows: the anchor ending nearest before it.
         let preceding = |offset: usize| {
@@ -905,8 +907,16 @@ impl Trivia {
         };
         for item in scan_trivia(source, &string_kinds(program)) {
             match item {
+                // A blank line before the first token, or one that would come first after a `=>`,
+                // has no place in the output: keeping it would only force a break here, which the
+                // next run would find no reason for.
+                Scanned::Blank(offset) if source[..offset].trim_start().is_empty() => {}
                 Scanned::Blank(offset) => match following(offset) {
-                    Some(anchor) => leading.entry(anchor).or_default().push(TriviaItem::Blank),
+                    Some(anchor) if anchor.after_arrow && !leading.contains_key(&anchor.start) => {}
+                    Some(anchor) => leading
+                        .entry(anchor.start)
+                        .or_default()
+                        .push(TriviaItem::Blank),
                     None => dangling.push(TriviaItem::Blank),
                 },
                 Scanned::Comment {
@@ -937,7 +947,7 @@ impl Trivia {
                     ..
                 } => match following(offset) {
                     Some(anchor) => leading
-                        .entry(anchor)
+                        .entry(anchor.start)
                         .or_default()
                         .push(TriviaItem::Comment(text)),
                     None => dangling.push(TriviaItem::Comment(text)),
@@ -1212,6 +1222,7 @@ fn push_anchor(span: Spanned, out: &mut Vec<Anchor>) {
         out.push(Anchor {
             start: span.offset,
             end: span.offset + span.length,
+            after_arrow: false,
         });
     }
 }
@@ -1261,7 +1272,11 @@ fn visit_expression(expression: &Expression, out: &mut Vec<Anchor>) {
     for branch in &expression.branches {
         visit_sequence(&branch.condition, out);
         if let Some(consequence) = &branch.consequence {
+            let first = out.len();
             visit_sequence(consequence, out);
+            if let Some(anchor) = out.get_mut(first) {
+                anchor.after_arrow = true;
+            }
         }
     }
 }
